@@ -1,4 +1,4 @@
 SPECIFICATION Spec
-CONSTANTS InitCap = 3  MaxCap = 5  Gap = 1  Ids = {1, 2}  MaxPub = 6  W = {1}  Tails = {1, 2, 4}
+CONSTANTS InitCap = 3  MaxCap = 5  Gap = 1  Ids = {1, 2}  MaxPub = 6  W = {1}  Tails = {1, 2, 4}  BBs = {FALSE}
 INVARIANTS RingCorrect NoBadDelivery ErroredOnlyIfLagged QuietComplete RecentBookmarksAccepted AcceptedBookmarkRetained
 CHECK_DEADLOCK FALSE
